@@ -1,7 +1,7 @@
 """Per-property registry and the generic check runner."""
 import json, os, sys, time
 from . import common as C
-from . import gen_civil
+from . import gen_civil, gen_posix
 
 REGISTRY = {}
 
@@ -177,3 +177,4 @@ reg("C04", gen=gen_civil.gen_c04)
 reg("C05", gen=gen_civil.gen_c05)
 reg("C17", gen=gen_civil.gen_c17, exhaustive={"thorough": True})
 reg("C15", gen=gen_civil.gen_c15_helpers, exhaustive={"quick": True, "thorough": True})
+reg("C16", gen=gen_posix.gen_c16)
